@@ -4,8 +4,10 @@
    Pipe/GenLog.v (compute_generation_log); constants of processing_log.py / options.py are the
    ones READ FROM THE CURRENT SOURCE (Gen/C16Consts.v). *)
 From Coq Require Import String List Bool.
+From Coq Require Import ZArith.
 From NG Require Import Gen.C16Consts Pipe.GenLog Pipe.GenLog_proofs Pipe.Options Pipe.Options_proofs
-                       Pipe.OptionsLog_proofs.
+                       Pipe.OptionsLog_proofs
+                       Pipe.FlowCheck Pipe.FlowCheck_proofs Pipe.OptGuards Pipe.OptGuards_proofs Gen.C01Flows Gen.C16Flows.
 Import ListNotations.
 Open Scope string_scope.
 Open Scope list_scope.
@@ -124,3 +126,137 @@ Theorem C16_log_stop :
                      forall x, In x pre -> ar_stop x = false).
 Proof. exact log_stop_flags. Qed.
 Print Assumptions C16_log_stop.
+
+(* ------------------------------------------------------------------------------------------
+   (T) the `$generation_options.rails.*` guards of llm_flows.co, as the repository's own parser
+   compiles them today (Gen/C01Flows.v: flat elements; Gen/C16Flows.v: the guard strings parsed
+   into expression trees).  An edit of a guard breaks one of the theorems below. *)
+
+(* the expression trees are the parse of the guard strings (re-printed and compared in Coq, no
+   parentheses needed), and every guard of the four option-guarded flows is covered *)
+Theorem C16_guards_parsed :
+  forallb entry_ok c16_guard_table = true /\
+  (all_guards_known v1_process_user_input c16_guard_table = true /\
+   all_guards_known v1_run_dialog_rails c16_guard_table = true /\
+   all_guards_known v1_generate_bot_message c16_guard_table = true /\
+   all_guards_known v1_process_bot_message c16_guard_table = true).
+Proof. exact (conj table_is_parse guards_known). Qed.
+Print Assumptions C16_guards_parsed.
+
+(* what the guards mean under eval_expression + `if` (undefined variable = None, attribute access,
+   Python and/or/not/is/==, truthiness): exactly the guard functions of Pipe/Options.v, for every
+   configuration, option value (None = generate called without options) and skip flag *)
+Theorem C16_guard_meanings :
+  forall c g sk,
+    let v := valuation c16_guard_table (turn_env c g sk) in
+    v g_in_opt = Some (input_enabled g) /\
+    v g_ret_opt = Some (retrieval_enabled g) /\
+    v g_out_opt = Some (output_enabled g) /\
+    v g_dialog_off = Some (dialog_disabled g) /\
+    v g_output_off = match g with Some _ => Some (output_off g) | None => None end /\
+    v g_in_cfg = Some (nonempty (c_in c)) /\
+    v g_ret_cfg = Some (nonempty (c_ret c)) /\
+    v g_out_cfg = Some (nonempty (c_out c)) /\
+    v g_skip = Some (match sk with Some b => b | None => false end).
+Proof. exact guard_meanings. Qed.
+Print Assumptions C16_guard_meanings.
+
+(* ONLY THROUGH the guard: every path of the compiled flow (as `slide` follows it) that reaches the
+   rails subflow call takes the TRUE edge of exactly `$generation_options is None or
+   $generation_options.rails.<category>` (and of the `$config.rails.<category>.flows` guard) *)
+Theorem C16_input_rails_guarded :
+  forall p k, reaches v1_process_user_input p k (at_flow "run input rails") ->
+    (exists i, In (i, LTrue g_in_opt) p) /\ (exists i, In (i, LTrue g_in_cfg) p).
+Proof. exact input_rails_only_through_guard. Qed.
+Print Assumptions C16_input_rails_guarded.
+
+Theorem C16_retrieval_rails_guarded :
+  forall p k, reaches v1_generate_bot_message p k (at_flow "run retrieval rails") ->
+    (exists i, In (i, LTrue g_ret_opt) p) /\ (exists i, In (i, LTrue g_ret_cfg) p).
+Proof. exact retrieval_rails_only_through_guard. Qed.
+Print Assumptions C16_retrieval_rails_guarded.
+
+Theorem C16_output_rails_guarded :
+  forall p k, reaches v1_process_bot_message p k (at_flow "run output rails") ->
+    (exists i, In (i, LTrue g_out_opt) p) /\ (exists i, In (i, LTrue g_out_cfg) p) /\ (exists i, In (i, LFalse g_skip) p).
+Proof. exact output_rails_only_through_guard. Qed.
+Print Assumptions C16_output_rails_guarded.
+
+(* `run dialog rails`: generation only on the FALSE edge of the dialog-off guard; the BotMessage
+   injection only with dialog off (TRUE edge) and output not off (FALSE edge of `... output == False`);
+   the echo of the user text only with both TRUE; the injected event is BotMessage(text=$bot_message) *)
+Theorem C16_dialog_branches_guarded :
+  forall p k, path v1_run_dialog_rails 0 p k ->
+    (at_flow "generate user intent" (elem_at v1_run_dialog_rails k) = true -> exists i, In (i, LFalse g_dialog_off) p) /\
+    (is_create "BotMessage" (elem_at v1_run_dialog_rails k) = true ->
+       (exists i, In (i, LTrue g_dialog_off) p) /\ (exists i, In (i, LFalse g_output_off) p)) /\
+    (is_create "StartUtteranceBotAction" (elem_at v1_run_dialog_rails k) = true ->
+       (exists i, In (i, LTrue g_dialog_off) p) /\ (exists i, In (i, LTrue g_output_off) p)).
+Proof. exact dialog_branches_only_through_guards. Qed.
+Print Assumptions C16_dialog_branches_guarded.
+
+(* EXACTLY WHEN: following each compiled flow under the meaning of its guards (`run_flow`; a `path`
+   of the flow by C16_run_is_path), the elements executed are exactly the ones the turn machine of
+   Pipe/Options.v is built from - rails call with its marker events iff in_active / ret_active /
+   out_active (skip flag first), BotMessage(text=$bot_message) iff dialog off and output on *)
+Theorem C16_process_user_input_exact :
+  forall c g sk,
+    expect (run_flow v1_process_user_input c16_guard_table (turn_env c g sk))
+           ([EMatch "UtteranceUserActionFinished"; ESet "user_message" "$event[""final_transcript""]"]
+            ++ (if in_active c g
+                then [ECreate "StartInputRails" []; EMatch "StartInputRails"; EFlow "run input rails";
+                      ECreate "InputRailsFinished" []; EMatch "InputRailsFinished"]
+                else [])
+            ++ [ECreate "UserMessage" [("text", "$user_message")]]).
+Proof. exact process_user_input_exact. Qed.
+Print Assumptions C16_process_user_input_exact.
+
+Theorem C16_run_dialog_rails_exact :
+  forall c g sk,
+    expect (run_flow v1_run_dialog_rails c16_guard_table (turn_env c g sk))
+           [EMatch "UserMessage";
+            if dialog_disabled g
+            then (if output_off g then ECreate "StartUtteranceBotAction" [("script", "$user_message")]
+                  else ECreate "BotMessage" [("text", "$bot_message")])
+            else EFlow "generate user intent"].
+Proof. exact run_dialog_rails_exact. Qed.
+Print Assumptions C16_run_dialog_rails_exact.
+
+Theorem C16_generate_bot_message_exact :
+  forall c g sk,
+    expect (run_flow v1_generate_bot_message c16_guard_table (turn_env c g sk))
+           ([EUtter "..."; EAction "retrieve_relevant_chunks" ""]
+            ++ (if ret_active c g then [EFlow "run retrieval rails"] else [])
+            ++ [EAction "generate_bot_message" ""]).
+Proof. exact generate_bot_message_exact. Qed.
+Print Assumptions C16_generate_bot_message_exact.
+
+Theorem C16_process_bot_message_exact :
+  forall c g sk,
+    expect (run_flow v1_process_bot_message c16_guard_table (turn_env c g sk))
+           ([EMatch "BotMessage"; ESet "bot_message" "$event.text"]
+            ++ (if match sk with Some b => b | None => false end
+                then [ESet "skip_output_rails" "False"]
+                else if out_active c g
+                     then [ECreate "StartOutputRails" []; EMatch "StartOutputRails"; EFlow "run output rails";
+                           ECreate "OutputRailsFinished" []; EMatch "OutputRailsFinished"]
+                     else [])
+            ++ [ECreate "StartUtteranceBotAction" [("script", "$bot_message")]]).
+Proof. exact process_bot_message_exact. Qed.
+Print Assumptions C16_process_bot_message_exact.
+
+Theorem C16_run_is_path :
+  forall es c g sk p,
+    walk es (valuation c16_guard_table (turn_env c g sk)) (S (List.length es)) 0 = Some p ->
+    exists k, path es 0 p k /\ elem_at es k = None /\
+              Forall (edge_agrees (valuation c16_guard_table (turn_env c g sk))) p.
+Proof. exact run_is_path. Qed.
+Print Assumptions C16_run_is_path.
+
+(* generate_async moves a trailing "assistant" message into $bot_message iff options are given and
+   options.rails.dialog is False (condition shape read from llmrails.py) *)
+Theorem C16_injection_condition :
+  inject_role = "assistant" /\ inject_iff_options_and_dialog_is_false = true /\
+  forall g b, injected_bot g (Some b) = (if dialog_disabled g then Some b else None).
+Proof. exact injection_condition. Qed.
+Print Assumptions C16_injection_condition.
